@@ -55,6 +55,11 @@ impl<A: Alphabet, C: PositiveLength> StripedSequence<A, C> {
             && (p % self.seq_rows() < i || (p % self.seq_rows() == i && p / self.seq_rows() < j)))
     }
 
+    /// all cells of the sequence rows in column-major order (the linear sequence followed by its padding)
+    pub open spec fn linear_ext(&self) -> Seq<A::Symbol> {
+        Seq::new((self.seq_rows() * C::USIZE) as nat, |p: int| self.data@[p % self.seq_rows()][p / self.seq_rows()])
+    }
+
     /// the matrix is the striping of the linear sequence `s`
     pub open spec fn stripe_ok(&self, s: Seq<A::Symbol>) -> bool {
         &&& self.data.wf()
